@@ -106,7 +106,7 @@ def r2_cursor(prog, rep: Report, fam: Family, include_mixins: bool):
         if not mine:
             rep.ok("C11.R2", f, "cursor", f"all reads positioned ({len(classes)} concrete classes)")
         for (ff, site), b in mine:
-            rep.viol("C11.R2", f, f"cursor:{site}",
+            rep.viol("C11.R2", (b["file"], f.short, b["line"]), f"cursor:{site}",
                      f"read at {b['file']}:{b['line']} ({site}) reached with cursor UNKNOWN via "
                      f"{' -> '.join(b['chain'])}; classes: {', '.join(sorted(set(b['classes'])))}",
                      witness={"chain": b["chain"], "classes": sorted(set(b["classes"]))},
@@ -139,6 +139,35 @@ def r3_terminator(prog, rep: Report, fam: Family):
             e = flow.expand(r.value) if r.value is not None else None
             ops = []
             ok_shape = True
+            sliced = None
+            # peel subscripts: x[:-1] on the line is an unconditional removal of the last character
+            probe = e
+            while isinstance(probe, (ast.Call, ast.Subscript)):
+                if isinstance(probe, ast.Subscript):
+                    sliced = probe
+                    break
+                if isinstance(probe.func, ast.Attribute):
+                    probe = flow.expand(probe.func.value)
+                else:
+                    break
+            if sliced is not None and isinstance(sliced.slice, ast.Slice):
+                guard = None
+                p_ = getattr(sliced, "_parent", None)
+                while p_ is not None and not isinstance(p_, ast.stmt):
+                    if isinstance(p_, ast.IfExp) and "endswith" in src(p_.test):
+                        guard = p_
+                    p_ = getattr(p_, "_parent", None)
+                st_ = p_
+                while st_ is not None and not isinstance(st_, (ast.FunctionDef,)):
+                    if isinstance(st_, ast.If) and "endswith" in src(st_.test):
+                        guard = st_
+                    st_ = getattr(st_, "_parent", None)
+                rep.check("C11.R3", f, "return", guard is not None,
+                          f"last character sliced off under an endswith guard: {src(r.value)}",
+                          f"`{src(sliced)}` cuts the last character unconditionally: an unterminated last line loses a character "
+                          f"(in the memory-mapped variant possibly half of a multi-byte character)",
+                          scenario="file content 'a\nbb\nccc' (no final newline): the last line reads as 'cc'", line=r.lineno)
+                continue
             while isinstance(e, ast.Call) and isinstance(e.func, ast.Attribute):
                 d = dotted(e.func.value)
                 if e.func.attr == "readline" and d and len(d) == 2 and d[0] == f.self_name and d[1] in handles:
